@@ -88,12 +88,12 @@ type LRec struct {
 }
 
 type LogCase struct {
-	CapsLabel []string  `json:"caps_label,omitempty"`
-	CapsLine  []string  `json:"caps_line,omitempty"`
+	CapsLabel []string   `json:"caps_label,omitempty"`
+	CapsLine  []string   `json:"caps_line,omitempty"`
 	Sel       []LMatcher `json:"sel,omitempty"`
-	Stages    []LStage  `json:"stages,omitempty"`
-	Recs      []LRec    `json:"recs"`
-	Limit     int       `json:"limit"`
+	Stages    []LStage   `json:"stages,omitempty"`
+	Recs      []LRec     `json:"recs"`
+	Limit     int        `json:"limit"`
 	// Share: the storage hands out one attribute map for all records with the same attributes (the
 	// Docker backend shares one resource map per container)
 	Share bool `json:"share,omitempty"`
